@@ -80,8 +80,21 @@ def _eval_scopes(S_, kind):
 
 c.exit_check(_eval_scopes)
 
+
+def _eval_value(S_):
+    h = S_.old
+    frame = h.f(S_.a.self, "TriggerContext.__frame")
+    g, l = h.f(frame, "f_globals"), h.f(frame, "f_locals")
+    raises = z3.Function("Eval_raises", Val, Val, Val, B)(S_.a.expression, g, l)
+    value = z3.Function("Eval_res", Val, Val, Val, Val)(S_.a.expression, g, l)
+    return Implies(Not(raises), S_.result == value)
+
+
+c.ens("value-of-the-expression-in-the-frame", _eval_value)
+
 # ---------------------------------------------------------------- ActionContext.can_trigger
 c = contract(AC, "ActionContext.can_trigger", ["C10", "C04"])
+c.logged = "can_trigger"
 c.param("self", OBJ("ActionContext", subclasses=ACTION_CTXS))
 c.result = BOOL
 c.modifies = lambda S_: []
@@ -91,7 +104,40 @@ def _cond_blank(h, cond):
     return Or(Val.is_VNone(cond), z3.Length(Strip(sv(cond))) == 0)
 
 
+def expr_value_facts(S_, expr):
+    """(raises, value) of evaluating `expr` in this context's frame: the trusted eval() model is a function of
+    (expression, frame globals, frame locals)."""
+    h = S_.old
+    tctx = h.f(S_.a.self, "trigger_context")
+    frame = h.f(tctx, "TriggerContext.__frame")
+    g, l = h.f(frame, "f_globals"), h.f(frame, "f_locals")
+    raises = z3.Function("Eval_raises", Val, Val, Val, B)(expr, g, l)
+    value = z3.Function("Eval_res", Val, Val, Val, Val)(expr, g, l)
+    return raises, value
+
+
 def _can_trigger_post(S_):
+    """result == limits and (blank condition or truthy(str(value of the condition)));
+    a condition whose evaluation fails yields its exception object, whose text is not one of the truthy words
+    only by accident - the statement's 'failing to evaluate' case is decided by the same table."""
+    h = S_.old
+    act = h.f(S_.a.self, "location_action")
+    ts = iv(h.f(h.f(S_.a.self, "trigger_context"), "TriggerContext.__ts"))
+    cond = h.f(act, "LocationAction.__condition")
+    limits = spec_limits_ok(h, act, ts)
+    raises, value = expr_value_facts(S_, cond)
+    r = bv(S_.result)
+    return And(Implies(Not(limits), Not(r)),
+               Implies(And(limits, _cond_blank(h, cond)), r),
+               Implies(And(limits, Not(_cond_blank(h, cond)), Not(raises)), r == Lower_in_truthy(StrOf(value))))
+
+
+c.ens("limits-then-condition", _can_trigger_post)
+
+
+def _can_trigger_log(S_, kind):
+    """Limits first: no expression is evaluated when the limits fail or the condition is blank; otherwise
+    exactly the tracepoint's own condition is evaluated, once."""
     h = S_.old
     act = h.f(S_.a.self, "location_action")
     ts = iv(h.f(h.f(S_.a.self, "trigger_context"), "TriggerContext.__ts"))
@@ -99,22 +145,31 @@ def _can_trigger_post(S_):
     limits = spec_limits_ok(h, act, ts)
     evs = S_.calls("evaluate_expression")
     if not evs:
-        # no expression evaluated on this path: allowed only when limits fail or the condition is blank
-        return And(Or(Not(limits), _cond_blank(h, cond)), bv(S_.result) == limits)
-    e = evs[0]
-    return And(len(evs) == 1, limits, Not(_cond_blank(h, cond)), e.args[1] == cond,
-               bv(S_.result) == Lower_in_truthy(StrOf(e.result)))
+        g = Or(Not(limits), _cond_blank(h, cond))
+    else:
+        g = And(len(evs) == 1, limits, Not(_cond_blank(h, cond)), evs[0].args[1] == cond)
+    return [("condition-evaluated-only-when-limits-allow", "LOG", g, ["C10"])]
 
 
-c.ens("limits-then-condition", _can_trigger_post)
+c.exit_check(_can_trigger_log)
+
+
+def _str_raises_post(S_):
+    """A failure can only come from rendering the condition's value (host __str__), hence only on hits whose
+    limits allow and whose condition is not blank."""
+    h = S_.old
+    act = h.f(S_.a.self, "location_action")
+    ts = iv(h.f(h.f(S_.a.self, "trigger_context"), "TriggerContext.__ts"))
+    cond = h.f(act, "LocationAction.__condition")
+    return And(spec_limits_ok(h, act, ts), Not(_cond_blank(h, cond)))
+
+
 # the only failure: str() of the condition's value runs host code that raises -> the hit is rejected
-c.sig("BaseException", "condition-value-str-raises",
-      post=lambda S_: And(len(S_.calls("evaluate_expression")) == 1,
-                          S_.I.hostfn("str", "raises")(S_.calls("evaluate_expression")[0].result)
-                          if S_.calls("evaluate_expression") else z3.BoolVal(False)))
+c.sig("BaseException", "condition-value-str-raises", post=_str_raises_post)
 
 # ---------------------------------------------------------------- ActionContext.has_triggered / process / __exit__
 c = contract(AC, "ActionContext.process", ["C10", "C04"])
+c.logged = "process"
 c.param("self", OBJ("ActionContext", subclasses=ACTION_CTXS))
 c.result = ANY
 c.modifies = lambda S_: [("all",)]
@@ -128,6 +183,7 @@ c.ens("returns-self", lambda S_: S_.result == S_.a.self)
 c.modifies = lambda S_: []
 
 c = contract(AC, "ActionContext.__exit__", ["C10", "C04"])
+c.logged = "ActionContext.__exit__"
 c.param("self", OBJ("ActionContext", subclasses=ACTION_CTXS))
 c.param("exception_type", ANY).param("exception_value", ANY).param("exception_traceback", ANY)
 c.result = NONE
